@@ -10,7 +10,7 @@ import copy
 import pickle
 
 from vlib.core import T, U
-from vlib.obs import obs, safe
+from vlib.obs import exc_name, obs, safe
 
 _yarl = None
 
@@ -165,6 +165,10 @@ def _apply(u, st, other):
         return u.joinpath(*[U(v) for v in st["vs"]], encoded=st.get("encoded", False))
     if op == "join":
         return u.join(other)
+    if op == "call":                    # C19: any public method with typed arguments (documented and wrong types)
+        f = getattr(u, st["name"])
+        r = f(*[pyval(a) for a in st.get("a", [])], **{U(k): pyval(v) for k, v in st.get("kw", [])})
+        return r if isinstance(r, _yarl.URL) else u
     if op == "parent":
         return u.parent
     if op == "origin":
@@ -204,7 +208,7 @@ def run_prog(prog, fields=None, extras=()):
             try:
                 other = _create(st["ref"]) if st["ref"]["op"] in CREATORS else None
             except Exception as e:  # noqa: BLE001
-                rec["other"] = {"exc": type(e).__name__}
+                rec["other"] = {"exc": exc_name(e)}
                 rec["out"] = {"exc": "n/a"}
                 recs.append(rec)
                 break
@@ -229,7 +233,7 @@ def run_prog(prog, fields=None, extras=()):
         except BaseException as e:  # noqa: BLE001
             if isinstance(e, (KeyboardInterrupt, SystemExit)):
                 raise
-            rec["out"] = {"exc": "n/a" if isinstance(e, _NotApplicable) else type(e).__name__}
+            rec["out"] = {"exc": "n/a" if isinstance(e, _NotApplicable) else exc_name(e)}
             if argobj is not None:
                 rec["arg_unchanged"] = _same(argobj, before)
             recs.append(rec)
@@ -241,6 +245,11 @@ def run_prog(prog, fields=None, extras=()):
             recs.append(rec)
             break
         rec["out"] = {"ok": obs(nu, fields)}
+        if "ok" not in rec["out"]["ok"].get("val", {"ok": 1}):
+            # a returned URL that cannot even report its five parts is broken: recorded as an (undocumented) failure
+            rec["out"] = {"exc": "BrokenURL:" + rec["out"]["ok"]["val"]["exc"]}
+            recs.append(rec)
+            break
         if "reparse" in extras:
             s = safe(lambda: str(nu))
             if "ok" in s:
@@ -248,7 +257,7 @@ def run_prog(prog, fields=None, extras=()):
                     rp = _yarl.URL(s["ok"])
                     rec["reparse"] = {"ok": obs(rp, fields)}
                 except Exception as e:  # noqa: BLE001
-                    rec["reparse"] = {"exc": type(e).__name__}
+                    rec["reparse"] = {"exc": exc_name(e)}
             else:
                 rec["reparse"] = {"exc": "str:" + s["exc"]}
         if "twin" in extras:
@@ -260,8 +269,31 @@ def run_prog(prog, fields=None, extras=()):
                     t = f()
                     tw[name] = {"ok": obs(t, fields), "eq": bool(t == nu), "hash_eq": hash(t) == hash(nu)}
                 except Exception as e:  # noqa: BLE001
-                    tw[name] = {"exc": type(e).__name__}
+                    tw[name] = {"exc": exc_name(e)}
             rec["twin"] = tw
+        if "human" in extras:
+            try:
+                hs = nu.human_repr()
+                hu = _yarl.URL(hs)
+                rec["human"] = {"ok": obs(hu, ["str", "val"]), "eq": bool(hu == nu)}
+            except Exception as e:  # noqa: BLE001
+                rec["human"] = {"exc": exc_name(e)}
+            # environment fact used by the readability clauses: which of the code points involved are printable
+            cps = set()
+            for v in (rec["out"]["ok"].get("human_repr", {}).get("ok") or []):
+                cps.add(v)
+            def _walk(x):
+                if isinstance(x, list):
+                    if x and all(isinstance(i, int) for i in x):
+                        cps.update(x)
+                    else:
+                        for i in x:
+                            _walk(i)
+                elif isinstance(x, dict):
+                    for i in x.values():
+                        _walk(i)
+            _walk(st)
+            rec["printable"] = sorted(c for c in cps if chr(c).isprintable())
         if "self_after" in extras and u is not None:
             rec["self_after"] = obs(u, fields)
         recs.append(rec)
